@@ -13,7 +13,7 @@ EXPLANATION = (
     "be derived; who-may-write shows no other writer of the state exists; TCB-deleting results are produced only from "
     "the allowed (state, flag) combinations and should_delete_tcb maps exactly those results to deletion; every move "
     "to TIME-WAIT is followed on all paths by arming the 2*MSL timer. This proves the clause 'each endpoint only ever "
-    "moves along transitions of the RFC 9293 state diagram' for all schedules, segments and call orders. (T-FIN) Tcb::close, as a formula, queues <SEQ=SND.NXT><ACK=RCV.NXT><FIN,ACK> and advances SND.NXT by one on every closing transition; (T-INORDER, "
+    "moves along transitions of the RFC 9293 state diagram' for all schedules, segments and call orders. (T-FIN) Tcb::close, as a formula, queues <SEQ=SND.NXT><ACK=RCV.NXT><FIN,ACK> and advances SND.NXT by one on every closing transition; (T-RECV) Tcb::receive hands over the buffered text in ESTABLISHED, FIN-WAIT-1, FIN-WAIT-2 and CLOSE-WAIT; (T-INORDER, "
     "shared with C01) a queued segment - a FIN included - reaches process_segment only on the branch where its SEQ is "
     "not beyond RCV.NXT, the structural half of 'the peer sees the end of the stream only after all data submitted "
     "before the close'. Not decided: RCV.NXT agreement, byte-level data-before-FIN delivery and eventual release "
@@ -55,6 +55,8 @@ def run(ctx):
     c01.check_inorder(ctx)
     from . import seqprims
     seqprims.check_close(ctx, "T-FIN")
+    seqprims.check_receive(ctx, "T-RECV")
+    seqprims.check_send(ctx, "T-SEND")
     # a FIN (one sequence number, no text) must stay on the retransmission queue until it is acknowledged
     rp_ = prog.method("Tcb", "remove_acked_from_retransmission")
     pr_ = c01.removal_rule(prog, rp_)
